@@ -65,6 +65,7 @@ class Stats:
         self.notes = []
         self.tiers_done = collections.Counter()
         self.outcomes = collections.Counter()
+        self.slow = []
 
     def sample(self, s, cap=3):
         if len(self.samples) < cap:
@@ -102,6 +103,7 @@ class Stats:
         self.counters.update(o.counters)
         self.outcomes.update(o.outcomes)
         self.tiers_done.update(o.tiers_done)
+        self.slow = sorted(self.slow + getattr(o, "slow", []), reverse=True)[:5]
         for s in o.samples:
             self.sample(s, cap=6)
         for sig, (n, lst) in o.violations.items():
@@ -188,7 +190,9 @@ def _worker(args):
         ctx = Ctx(**ctxd)
         t0 = time.time()
         st = mod.run_group(ctx, group)
-        st.counters["group_seconds_x1000"] += int((time.time() - t0) * 1000)
+        dt = time.time() - t0
+        st.counters["group_seconds_x1000"] += int(dt * 1000)
+        st.slow = [(round(dt, 2), repr(group)[:120])]
         return idx, st, None
     except BaseException:
         return idx, None, traceback.format_exc()
@@ -285,6 +289,7 @@ def finalize(mod, ctx, total, ngroups, done, skipped, harness_errors, wall):
         "counters": dict(sorted(total.counters.items())),
         "distinct_outcomes": dict(sorted((str(k), v) for k, v in total.outcomes.items())),
         "known_findings_hit": known_hit,
+        "slowest_groups": total.slow,
         "notes": total.notes,
         "repo": REPO,
     }
